@@ -69,6 +69,9 @@ def run_one(spec, tier, extra):
         subprocess.run(["git", "-C", "/repo", "worktree", "prune"], capture_output=True)
 
 
+RESULTS = {}
+
+
 def main():
     ap = argparse.ArgumentParser()
     ap.add_argument("props", nargs="*")
@@ -89,9 +92,20 @@ def main():
     with cf.ThreadPoolExecutor(args.jobs) as ex:
         for name, status, info in ex.map(lambda p: run_one(p, args.tier, extra), patches):
             print(f"{status:14s} {name}: {info}")
+            RESULTS[name] = status
             sys.stdout.flush()
             bad += status != "CAUGHT"
     print(f"{len(patches) - bad}/{len(patches)} mutants caught")
+    rp = os.path.join(ROOT, "mutants", "results.txt")
+    old = {}
+    if os.path.exists(rp):
+        for ln in open(rp):
+            k, _, v = ln.strip().partition(" ")
+            old[k] = v
+    old.update(RESULTS)
+    with open(rp, "w") as f:
+        for k in sorted(old):
+            f.write(f"{k} {old[k]}\n")
     # remove replay files written by mutant runs
     return 1 if bad else 0
 
